@@ -611,6 +611,9 @@ impl<T: platform::Args> Default for ArgumentParser<T> {
     }
 }
 
+/// How many levels of response files we allow to include one another.
+const MAX_RESPONSE_FILE_DEPTH: u32 = 64;
+
 impl<T: platform::Args> ArgumentParser<T> {
     #[must_use]
     fn new() -> Self {
@@ -664,15 +667,39 @@ impl<T: platform::Args> ArgumentParser<T> {
         arg: &str,
         input: &mut I,
     ) -> Result<()> {
+        self.handle_nested_argument(args, modifier_stack, arg, input, 0)
+    }
+
+    /// Handles an argument that was found in `response_file_depth` nested response files.
+    fn handle_nested_argument<S: AsRef<str>, I: Iterator<Item = S>>(
+        &self,
+        args: &mut T,
+        modifier_stack: &mut Vec<Modifiers>,
+        arg: &str,
+        input: &mut I,
+        response_file_depth: u32,
+    ) -> Result<()> {
         let common = args.common_mut();
 
         // TODO @lapla-cogito standardize the interface. @file doesn't use a leading hyphen.
         // Handle `@file`option (recursively) - merging in the options contained in the file
         if let Some(path) = arg.strip_prefix('@') {
+            // A response file that includes itself would otherwise recurse until we overflow the
+            // stack.
+            ensure!(
+                response_file_depth < MAX_RESPONSE_FILE_DEPTH,
+                "Response files nested too deeply while reading `{path}`"
+            );
             let file_args = read_args_from_file(Path::new(path))?;
             let mut file_arg_iter = file_args.iter();
             while let Some(file_arg) = file_arg_iter.next() {
-                self.handle_argument(args, modifier_stack, file_arg, &mut file_arg_iter)?;
+                self.handle_nested_argument(
+                    args,
+                    modifier_stack,
+                    file_arg,
+                    &mut file_arg_iter,
+                    response_file_depth + 1,
+                )?;
             }
             return Ok(());
         }
